@@ -181,7 +181,48 @@ class Ctx:
         return out
 
     def run_driver(self, args, cases=None, race=False, timeout=3600, env=None):
-        """Run `driver <args...> <in> <out>`; cases -> ndjson input. Returns list of result dicts."""
+        """Run `driver <args...> <in> <out>`; cases -> ndjson input. Returns list of result dicts.
+        If the driver process dies (the code under test aborted the process: stack exhaustion,
+        out-of-memory, unrecovered panic on another goroutine) or exceeds the timeout, the input is
+        bisected until the offending cases are isolated; each is reported as a failed result with
+        clause "abort" (at most 3 are isolated, the rest of their half is skipped and counted)."""
+        cases = list(cases or [])
+        self._abort_budget = 3
+        return self._run_driver(args, cases, 0, race, timeout, env)
+
+    def _run_driver(self, args, cases, base, race, timeout, env):
+        rc, res, out = self._driver_once(args, cases, race, timeout, env)
+        if rc == 0:
+            for r in res:
+                r["case"] = r.get("case", 0) + base
+            return res
+        if rc == 2 and "driver error:" in out:
+            raise MachineryError("driver %s failed rc=%d:\n%s" % (args, rc, out[-3000:]))
+        if not cases:
+            raise MachineryError("driver %s died rc=%d:\n%s" % (args, rc, out[-3000:]))
+        if self._abort_budget <= 0:
+            # enough aborting cases have been isolated and reported; the rest of this
+            # half is not examined (counted, never silently passed: the run already fails)
+            self.extra["cases_skipped_after_aborts"] = self.extra.get("cases_skipped_after_aborts", 0) + len(cases)
+            return []
+        if len(cases) == 1:
+            self._abort_budget -= 1
+            kind = "timeout" if rc == 124 else "abort"
+            lines = [l for l in out.splitlines() if l.strip()]
+            head = " | ".join(lines[:3])[:400]
+            where = [l.strip() for l in lines if "tabula" in l and "(" in l][:4]
+            return [{"case": base, "ok": False, "clause": kind, "sig": "%s:%s" % (self.prop, kind),
+                     "what": "the process %s while handling this case: %s ... %s" % (
+                         "did not finish within %ds" % timeout if rc == 124 else "was aborted", head, " | ".join(where)),
+                     "nontrivial": True, "key": "abort-%d" % base,
+                     "replay": {"case": cases[0], "driver_args": list(args), "output": out[-2000:]}}]
+        mid = len(cases) // 2
+        short = max(60, min(timeout, 600))
+        a = self._run_driver(args, cases[:mid], base, race, short, env)
+        b = self._run_driver(args, cases[mid:], base + mid, race, short, env)
+        return a + b
+
+    def _driver_once(self, args, cases, race, timeout, env):
         drv = self.build_driver(race)
         fin = tempfile.mktemp(prefix="in.", suffix=".ndjson", dir=self.scratch)
         fout = tempfile.mktemp(prefix="out.", suffix=".ndjson", dir=self.scratch)
@@ -192,19 +233,22 @@ class Ctx:
         e["VERIF_SEED"] = str(self.seed)
         e["VERIF_TIER"] = self.tier
         e["VERIF_SCRATCH"] = self.scratch
+        e.setdefault("GOMEMLIMIT", "6GiB")
         e.update(env or {})
-        p = subprocess.run(["timeout", str(timeout), drv] + list(args) + [fin, fout], env=e,
-                           stdout=subprocess.PIPE, stderr=subprocess.STDOUT, text=True)
-        if p.returncode != 0:
-            raise MachineryError("driver %s failed rc=%d:\n%s" % (args, p.returncode, p.stdout[-4000:]))
+        # address-space cap: an allocation sized from attacker-controlled numbers fails
+        # inside the child instead of taking the machine down
+        cmd = ["bash", "-c", "ulimit -v 16777216; exec timeout %d \"$@\"" % timeout, "drv", drv] + list(args) + [fin, fout]
+        p = subprocess.run(cmd, env=e, stdout=subprocess.PIPE, stderr=subprocess.STDOUT, text=True, errors="replace")
         res = []
-        with open(fout) as f:
-            for line in f:
-                if line.strip():
-                    res.append(json.loads(line))
-        os.unlink(fin)
-        os.unlink(fout)
-        return res
+        if p.returncode == 0:
+            with open(fout) as f:
+                for line in f:
+                    if line.strip():
+                        res.append(json.loads(line))
+        for x in (fin, fout):
+            if os.path.exists(x):
+                os.unlink(x)
+        return p.returncode, res, p.stdout
 
     # ----------------------------------------------------- trace validation
     def validate_trace(self, module, cfg, events, tracefile="trace.ndjson", timeout=900, segments=None):
